@@ -14,6 +14,8 @@ type Plan struct {
 	Clients []Client `json:"clients"`
 	Knobs   Knobs    `json:"knobs"`
 	Note    string   `json:"note,omitempty"`
+	N1      int64    `json:"n1,omitempty"` // property-specific plan parameters
+	N2      int64    `json:"n2,omitempty"`
 }
 
 type Knobs struct {
